@@ -729,6 +729,11 @@ func (c *irCtx) stmt1(s ast.Stmt) string {
 		return "(.ret [" + strings.Join(rs, ", ") + "])"
 	case *ast.ExprStmt:
 		if call, ok := x.X.(*ast.CallExpr); ok {
+			if id, ok := call.Fun.(*ast.Ident); ok && id.Name == "panic" && len(call.Args) == 1 && c.pureArg(call.Args[0]) {
+				if _, shadowed := c.lookup("panic"); !shadowed {
+					return ".panicS"
+				}
+			}
 			if st, ok := c.callStmt(call, nil, false); ok {
 				return st
 			}
@@ -784,6 +789,14 @@ func (c *irCtx) stmt1(s ast.Stmt) string {
 		if x.Tok != token.ASSIGN && !define {
 			break
 		}
+		// x[i] = e on a byte slice
+		if ix, ok := x.Lhs[0].(*ast.IndexExpr); ok && len(x.Lhs) == 1 && len(x.Rhs) == 1 && !define {
+			if id, ok := ix.X.(*ast.Ident); ok {
+				if sl, found := c.lookup(id.Name); found && c.types[sl] == "[]byte" {
+					return fmt.Sprintf("(.setByte %d %s %s)", sl, c.expr(ix.Index, "int"), c.expr(x.Rhs[0], "byte"))
+				}
+			}
+		}
 		if len(x.Rhs) == 1 {
 			if call, ok := x.Rhs[0].(*ast.CallExpr); ok {
 				// make / append / effectful calls
@@ -825,6 +838,27 @@ func (c *irCtx) stmt1(s ast.Stmt) string {
 					return st
 				}
 			}
+		}
+		if len(x.Lhs) == len(x.Rhs) && len(x.Lhs) > 1 {
+			// a, b = e1, e2: every right-hand side is evaluated before any assignment
+			var parts []string
+			var tmps []int
+			var tys []string
+			for i, r := range x.Rhs {
+				t := c.typeOf(r)
+				if !define {
+					t = c.typeOf(x.Lhs[i])
+				}
+				v := c.expr(r, t)
+				sl := c.tmp(t)
+				tmps, tys = append(tmps, sl), append(tys, t)
+				parts = append(parts, fmt.Sprintf("(.set %d %s)", sl, v))
+			}
+			for i, l := range x.Lhs {
+				sl := tmps[i]
+				parts = append(parts, c.assignTo(l, define, tys[i], func() string { return fmt.Sprintf("(.var %d)", sl) }))
+			}
+			return seqOf(parts)
 		}
 		if len(x.Lhs) == len(x.Rhs) && len(x.Lhs) == 1 {
 			t := c.typeOf(x.Rhs[0])
@@ -877,7 +911,7 @@ func (c *irCtx) stmt1(s ast.Stmt) string {
 		tagSlot, tagTy := -1, ""
 		if x.Tag != nil {
 			tagTy = c.typeOf(x.Tag)
-			if !isIntType(c, tagTy) && tagTy != "const" {
+			if !isIntType(c, tagTy) && tagTy != "const" && tagTy != "bool" {
 				break
 			}
 			v := c.expr(x.Tag, tagTy)
@@ -905,7 +939,16 @@ func (c *irCtx) stmt1(s ast.Stmt) string {
 			cond := ""
 			for _, e := range cc.List {
 				one := ""
-				if tagSlot >= 0 {
+				if tagSlot >= 0 && tagTy == "bool" {
+					// case true / case false on a Boolean tag
+					if isIdent(e, "true") {
+						one = fmt.Sprintf("(.var %d)", tagSlot)
+					} else if isIdent(e, "false") {
+						one = fmt.Sprintf("(.not (.var %d))", tagSlot)
+					} else {
+						c.fail(e, "case of a Boolean switch")
+					}
+				} else if tagSlot >= 0 {
 					one = fmt.Sprintf("(.cmp .eq (.var %d) %s)", tagSlot, c.expr(e, tagTy))
 				} else {
 					one = c.expr(e, "bool")
